@@ -361,4 +361,49 @@ pub fn check_c13_req(versym: &[u8; 4], need: &[u8; 32], strs: &[u8; 6], sym_idx:
     Ok(())
 }
 
+/// C20: over a 248-byte ELF64/LE file with two section headers (types, links, entry sizes and data windows chosen by the
+/// arguments) and at most one section of each kind, the one-pass discovery and the targeted accessors agree
+pub fn check_c20(ty0: u8, ty1: u8, link0: u8, link1: u8, ent0: u8, ent1: u8, win0: bool, win1: bool) -> Result<(), String> {
+    const TYPES: [u32; 8] = [0, 2, 3, 11, 6, 1, 7, 9];      // NULL SYMTAB STRTAB DYNSYM DYNAMIC PROGBITS NOTE REL
+    let (t0, t1) = (TYPES[(ty0 % 8) as usize], TYPES[(ty1 % 8) as usize]);
+    if t0 == t1 && t0 != 0 && t0 != 1 { return Ok(()); }     // "at most one section of each kind"
+    let mut f = [0u8; 248];
+    f[..8].copy_from_slice(&[0x7f, b'E', b'L', b'F', 2, 1, 1, 0]);
+    f[16] = 2; f[18] = 62; f[20] = 1; f[40] = 64; f[52] = 64; f[54] = 56; f[58] = 64; f[60] = 2;   // e_shoff 64, e_shentsize 64, e_shnum 2
+    f[192..240].copy_from_slice(&[0x11u8; 48]);
+    f[240..248].copy_from_slice(&[0, b'a', 0, b'b', b'c', 0, b'd', 0]);   // the 8-byte window 240..248 is a small string table
+    let put = |f: &mut [u8; 248], n: usize, ty: u32, link: u8, ent: u8, win: bool| {
+        let b = 64 + 64 * n;
+        f[b + 4..b + 8].copy_from_slice(&ty.to_le_bytes());
+        let (off, size): (u64, u64) = if win { (192, 48) } else { (240, 8) };
+        f[b + 24..b + 32].copy_from_slice(&off.to_le_bytes()); f[b + 32..b + 40].copy_from_slice(&size.to_le_bytes());
+        f[b + 40..b + 44].copy_from_slice(&((link % 3) as u32).to_le_bytes());
+        f[b + 56..b + 64].copy_from_slice(&([24u64, 16, 0, 8][(ent % 4) as usize]).to_le_bytes());
+    };
+    put(&mut f, 0, t0, link0, ent0, win0); put(&mut f, 1, t1, link1, ent1, win1);
+    let eb = match elf::ElfBytes::<AnyEndian>::minimal_parse(&f) { Ok(e) => e, Err(_) => fail!("minimal_parse rejected the test file") };
+    let common = match eb.find_common_data() { Ok(c) => c, Err(_) => return Ok(()) };
+    let same_tab = |a: &Option<elf::symbol::SymbolTable<AnyEndian>>, b: &Option<(elf::symbol::SymbolTable<AnyEndian>, elf::string_table::StringTable)>,
+                    s: &Option<elf::string_table::StringTable>| -> bool {
+        match (a, b) {
+            (None, None) => s.is_none(),
+            (Some(x), Some((y, ys))) => x.len() == y.len() && x.get(0).ok() == y.get(0).ok() && match s { Some(xs) => xs.get_raw(1).ok() == ys.get_raw(1).ok() && xs.get_raw(0).ok() == ys.get_raw(0).ok(), None => false },
+            _ => false,
+        }
+    };
+    match eb.symbol_table() {
+        Ok(t) => if !same_tab(&common.symtab, &t, &common.symtab_strs) { fail!("find_common_data and symbol_table() disagree (types {} {}, links {} {})", t0, t1, link0 % 3, link1 % 3); },
+        Err(_) => fail!("find_common_data succeeds but symbol_table() is an error (types {} {})", t0, t1),
+    }
+    match eb.dynamic_symbol_table() {
+        Ok(t) => if !same_tab(&common.dynsyms, &t, &common.dynsyms_strs) { fail!("find_common_data and dynamic_symbol_table() disagree (types {} {}, links {} {})", t0, t1, link0 % 3, link1 % 3); },
+        Err(_) => fail!("find_common_data succeeds but dynamic_symbol_table() is an error (types {} {})", t0, t1),
+    }
+    match eb.dynamic() {
+        Ok(d) => match (&common.dynamic, &d) { (None, None) => {}, (Some(x), Some(y)) => if x.len() != y.len() || x.get(0).ok() != y.get(0).ok() { fail!("find_common_data and dynamic() disagree"); }, _ => fail!("find_common_data and dynamic() disagree on presence") },
+        Err(_) => fail!("find_common_data succeeds but dynamic() is an error"),
+    }
+    Ok(())
+}
+
 include!("layout_oracle.rs");
